@@ -24,6 +24,9 @@ impl PathLike for &Path { open spec fn pkey(&self) -> PathKey { self.key() } }
 impl PathLike for Path { open spec fn pkey(&self) -> PathKey { self.key() } }
 impl<'a> PathLike for Component<'a> { open spec fn pkey(&self) -> PathKey { self.key() } }
 impl PathLike for &OsStr { open spec fn pkey(&self) -> PathKey { self.key() } }
+/// a string literal used as a path (`dir.join(".gitignore")`)
+pub uninterp spec fn key_of_str(s: &str) -> PathKey;
+impl PathLike for &str { open spec fn pkey(&self) -> PathKey { key_of_str(*self) } }
 
 /// a component is *normal* when it names an entry of its own: not `.`, `..`, the root or a prefix
 pub uninterp spec fn pnormal(c: PathKey) -> bool;
